@@ -32,6 +32,13 @@ SELF = ("param", "self")
 
 
 def run(check: Check) -> None:
+    cascade(check)
+    setter(check)
+    clear(check)
+
+
+def cascade(check: Check) -> None:
+    """Rules on OutputVariable.defuzzify (O1-O6)."""
     p = check.program
     fn = p.func("OutputVariable.defuzzify")
     check.analysed(fn)
@@ -51,6 +58,10 @@ def run(check: Check) -> None:
             return True
         if t[0] == "elem" and t[1][0] == "with" and t[1][1][0] == "call" and t[1][1][1] == ("global", "numpy.nditer"):
             return bool(t[1][1][2]) and is_result(t[1][1][2][0])
+        if t[0] == "phi":
+            return any(is_result(a_) for a_ in t[1])
+        if t[0] == "call" and t[1][0] == "global" and t[1][1] in ("numpy.where", "numpy.nan_to_num", "numpy.clip", "numpy.copy"):
+            return any(s_ == dterm for s_ in walk(t))
         return False
 
     # effects: stores to self.<attr>, in-place writes into the result
@@ -120,37 +131,57 @@ def run(check: Check) -> None:
                       ("previous_value does not read self.value" if not reads_old else "previous_value is captured after the commit"),
                       loc(fn, pn), {"expr": show(pt)})
 
-    # O4 / O5 fill blocks
+    # O4 / O5 fill blocks: every change of the result after the defuzzifier call (rebinding or in-place)
+    res_names = {d.name for d in cfg.defs_at(dn)}
+    updates: list[tuple] = []
+    for n in cfg.stmt_nodes():
+        if n is dn or n.copy:
+            continue
+        for d in cfg.defs_at(n):
+            if d.name in res_names and d.kind in ("value", "aug", "walrus"):
+                updates.append((n, "rebind", None))
+        for t in cfg.stores_at(n):
+            if isinstance(t, ast.Subscript) and is_result(r.term(t.value, n)):
+                updates.append((n, "inplace", t))
     lock_writes, default_writes, unguarded = [], [], []
-    for n, t in inplace:
+    for n, how, t in updates:
         gs = [(r.term(g, gn), pol) for g, pol, gn in cfg.must_guards(n)]
         under_lock = any(pol and path_of(gt) == "self.lock_previous" for gt, pol in gs)
-        under_default = any(any(path_of(s) == "self.default_value" for s in walk(gt)) for gt, pol in gs)
-        if under_lock:
-            lock_writes.append((n, t))
-        elif under_default:
-            default_writes.append((n, t))
-        else:
-            unguarded.append((n, t))
+        under_default = any(any(path_of(s_) == "self.default_value" for s_ in walk(gt)) for gt, pol in gs)
+        (lock_writes if under_lock else default_writes if under_default else unguarded).append((n, how, t))
     check.require(bool(lock_writes) and bool(default_writes) and not unguarded, "O4", "OutputVariable.defuzzify/blocks",
-                  "the result is modified in place only by a block guarded by lock_previous and a block guarded by default_value"
+                  "after defuzzification the result is changed only by a block guarded by lock_previous and a block guarded by default_value"
                   if lock_writes and default_writes and not unguarded else
-                  f"lock-previous writes: {len(lock_writes)}, default writes: {len(default_writes)}, unguarded: {len(unguarded)}",
-                  loc(fn))
+                  ("lock_previous has no effect on the result" if not lock_writes else "default_value has no effect on the result" if not default_writes
+                   else f"the result is also changed unconditionally at lines {sorted(n.lineno for n, _, _ in unguarded)}"), loc(fn))
     if lock_writes and default_writes:
-        order_ok = all(ln not in cfg.reach([s for s, _ in dn_.succ]) for ln, _ in lock_writes for dn_, _ in default_writes)
+        order_ok = all(ln not in cfg.reach([s for s, _ in dn_.succ]) for ln, _, _ in lock_writes for dn_, _, _ in default_writes)
         commit_last = all(cn in cfg.reach([s for s, _ in n.succ]) and n not in cfg.reach([s for s, _ in cn.succ])
-                          for n, _ in lock_writes + default_writes)
+                          for n, _, _ in lock_writes + default_writes)
         check.require(order_ok, "O4", "OutputVariable.defuzzify/order",
                       "the lock-previous fill runs before the default-value fill", loc(fn, default_writes[0][0]))
         check.require(commit_last, "O4", "OutputVariable.defuzzify/commit-last",
                       "both fills run before the value is committed", loc(fn, cn))
-        # default block: value[isnan(value)] = self.default_value under not isnan(default)
-        n, t = default_writes[0]
-        idx = r.term(t.slice, n)
-        rhs = r.term(n.ast.value, n)  # type: ignore[union-attr]
-        idx_ok = idx[0] == "call" and idx[1] == ("global", "numpy.isnan") and len(idx[2]) == 1 and is_result(idx[2][0])
-        rhs_ok = path_of(rhs) == "self.default_value"
+        # default block: exactly the NaN entries become default_value, iff default_value is not NaN
+        n, how, t = default_writes[0]
+        if how == "inplace":
+            idx = r.term(t.slice, n)
+            rhs = r.term(n.ast.value, n)  # type: ignore[union-attr]
+            idx_ok = idx[0] == "call" and idx[1] == ("global", "numpy.isnan") and len(idx[2]) == 1 and is_result(idx[2][0])
+            rhs_ok = path_of(rhs) == "self.default_value"
+            shown = f"index={show(idx)} value={show(rhs)}"
+        else:
+            v = r.term(n.ast.value, n)  # type: ignore[union-attr]
+            idx_ok = rhs_ok = False
+            if v[0] == "call" and v[1] == ("global", "numpy.where") and len(v[2]) == 3:
+                c_, a_, b_ = v[2]
+                idx_ok = c_[0] == "call" and c_[1] == ("global", "numpy.isnan") and is_result(c_[2][0]) and is_result(b_)
+                rhs_ok = path_of(a_) == "self.default_value"
+            elif v[0] == "call" and v[1] == ("global", "numpy.nan_to_num") and v[2] and is_result(v[2][0]):
+                kw = dict(v[3])
+                idx_ok = set(kw) == {"nan"}
+                rhs_ok = path_of(kw.get("nan", ("const", None))) == "self.default_value"
+            shown = f"value={show(v)[:160]}"
         rows = 0
         bad = []
         for dnan in (True, False):
@@ -161,48 +192,9 @@ def run(check: Check) -> None:
                 bad.append(env)
         check.require(idx_ok and rhs_ok and not bad, "O5", "OutputVariable.defuzzify/default-fill",
                       "exactly the NaN entries of the result are replaced by default_value, iff default_value is not NaN"
-                      if idx_ok and rhs_ok and not bad else f"index={show(idx)} value={show(rhs)} guard-disagreements={bad}",
+                      if idx_ok and rhs_ok and not bad else f"{shown} guard-disagreements={bad}",
                       loc(fn, n), exhaustive=True, cases=rows)
-        # lock block
-        n, t = lock_writes[0]
-        loops = cfg.enclosing_loops(n)
-        if not loops:
-            check.violation("O5", "OutputVariable.defuzzify/lock-fill", "the lock-previous fill is not a loop over the result", loc(fn, n))
-        else:
-            head = loops[-1]
-            elem = r.term(head.ast.target, body0(head))  # type: ignore[union-attr]
-            over_result = is_result(elem)
-            filler = r.term(n.ast.value, n)  # type: ignore[union-attr]
-            alts = set(filler[1]) if filler[0] == "phi" else {filler}
-            seeded = any(path_of(strip(a)) == "self.previous_value" for a in alts)
-            carried = any(strip(a) == elem for a in alts)
-            extra = [a for a in alts if path_of(strip(a)) != "self.previous_value" and strip(a) != elem and a[0] != "carried"]
-            # the carried update happens exactly for non-NaN elements, the write exactly for NaN elements
-            updates = [m for m in cfg.loop_body(head) if m.kind == "stmt" and isinstance(m.ast, ast.Assign) and
-                       isinstance(n.ast.value, ast.Name) and any(isinstance(tg, ast.Name) and tg.id == n.ast.value.id for tg in m.ast.targets)]  # type: ignore[union-attr]
-            bad = []
-            rows = 0
-            from .common import body_entry
-
-            for isn in (True, False):
-                env = {"enabled": True, "has_defuzzifier": True, "lock_previous": True, "default_is_nan": True, "elem_is_nan": isn}
-                outside = {m for m in cfg.nodes if m not in cfg.loop_body(head)}
-                may, must = simulate(cfg, body_entry(head), ev, env, {n} | set(updates), outside)
-                rows += 1
-                if (n in must) != isn or (n in may) != isn:
-                    bad.append(("write", env))
-                if any((u in must) != (not isn) or (u in may) != (not isn) for u in updates):
-                    bad.append(("carry", env))
-            ok = over_result and seeded and carried and not extra and bool(updates) and not bad
-            check.require(ok, "O5", "OutputVariable.defuzzify/lock-fill",
-                          "NaN entries are replaced by a filler that starts as the just-recorded previous value and is "
-                          "updated by every non-NaN entry (fill forward)" if ok else
-                          f"over_result={over_result} seeded_from_previous={seeded} carried_update={carried and bool(updates)} "
-                          f"other_sources={[show(a) for a in extra]} guard-disagreements={bad}",
-                          loc(fn, n), {"filler": show(filler)}, exhaustive=True, cases=rows)
-            if prevs:
-                check.require(cfg.must_precede([prevs[0]], head), "O5", "OutputVariable.defuzzify/seed-after-capture",
-                              "the filler is seeded after previous_value has been recorded", loc(fn, head))
+        lock_fill(check, fn, r, cfg, ev, is_result, lock_writes, prevs, "O5")
 
     # O6 commit through the property, value = the (filled) result
     tgt = [t for t in cfg.stores_at(cn) if isinstance(t, ast.Attribute)][0]
@@ -210,8 +202,61 @@ def run(check: Check) -> None:
     check.require(tgt.attr == "value" and is_result(ct), "O6", "OutputVariable.defuzzify/commit",
                   "the result is committed by assigning the property `self.value` (clipping setter)"
                   if tgt.attr == "value" and is_result(ct) else f"commit assigns self.{tgt.attr} = {show(ct)}", loc(fn, cn))
-    setter(check)
-    clear(check)
+
+
+def lock_fill(check: Check, fn, r: Resolver, cfg, ev, is_result, lock_writes, prevs, rule: str) -> None:
+    """The lock-previous block: fill forward along the batch (shared by C12/O5 and C02/V4)."""
+    from .common import body_entry
+
+    inloop = [(n, how, t) for n, how, t in lock_writes if how == "inplace" and cfg.enclosing_loops(n)]
+    if not inloop:
+        # no loop: is there a scan (ufunc.accumulate / cumulative index trick)? otherwise a fill-forward is impossible
+        scans = []
+        for n, how, t in lock_writes:
+            for e in cfg.exprs_of(n):
+                for x in ast.walk(e):
+                    if isinstance(x, ast.Attribute) and x.attr in ("accumulate", "cummax", "ffill", "reduceat"):
+                        scans.append(n)
+        if scans:
+            raise AnalysisError("OutputVariable.defuzzify: a vectorised fill-forward (accumulate idiom) is not modelled by this rule")
+        n = lock_writes[0][0]
+        check.violation(rule, "OutputVariable.defuzzify/lock-fill",
+                        "the lock-previous block neither carries a value from row to row nor scans the batch: each NaN row can only take a "
+                        "value at a fixed offset, so the second NaN of a run is not replaced by the most recent value (a batch differs from "
+                        "row-by-row processing)", loc(fn, n), {"expr": unparse(n.ast)[:200]})
+        return
+    n, how, t = inloop[0]
+    head = cfg.enclosing_loops(n)[-1]
+    elem = r.term(head.ast.target, body_entry(head))  # type: ignore[union-attr]
+    over_result = is_result(elem)
+    filler = r.term(n.ast.value, n)  # type: ignore[union-attr]
+    alts = set(filler[1]) if filler[0] == "phi" else {filler}
+    seeded = any(path_of(strip(a)) == "self.previous_value" for a in alts)
+    carried = any(strip(a) == elem for a in alts)
+    extra = [a for a in alts if path_of(strip(a)) != "self.previous_value" and strip(a) != elem and a[0] != "carried"]
+    updates = [m for m in cfg.loop_body(head) if m.kind == "stmt" and isinstance(m.ast, ast.Assign) and
+               isinstance(n.ast.value, ast.Name) and any(isinstance(tg, ast.Name) and tg.id == n.ast.value.id for tg in m.ast.targets)]  # type: ignore[union-attr]
+    bad = []
+    rows = 0
+    for isn in (True, False):
+        env = {"enabled": True, "has_defuzzifier": True, "lock_previous": True, "default_is_nan": True, "elem_is_nan": isn}
+        outside = {m for m in cfg.nodes if m not in cfg.loop_body(head)}
+        may, must = simulate(cfg, body_entry(head), ev, env, {n} | set(updates), outside)
+        rows += 1
+        if (n in must) != isn or (n in may) != isn:
+            bad.append(("write", env))
+        if any((u in must) != (not isn) or (u in may) != (not isn) for u in updates):
+            bad.append(("carry", env))
+    ok = over_result and seeded and carried and not extra and bool(updates) and not bad
+    check.require(ok, rule, "OutputVariable.defuzzify/lock-fill",
+                  "NaN entries are replaced by a filler that starts as the just-recorded previous value and is "
+                  "updated by every non-NaN entry (fill forward)" if ok else
+                  f"over_result={over_result} seeded_from_previous={seeded} carried_update={carried and bool(updates)} "
+                  f"other_sources={[show(a) for a in extra]} guard-disagreements={bad}",
+                  loc(fn, n), {"filler": show(filler)}, exhaustive=True, cases=rows)
+    if prevs:
+        check.require(cfg.must_precede([prevs[0]], head), rule, "OutputVariable.defuzzify/seed-after-capture",
+                      "the filler is seeded after previous_value has been recorded", loc(fn, head))
 
 
 def body0(head):
